@@ -52,6 +52,10 @@ type vfC12Kind struct {
 	Vk *vfC12Kind  `json:"vk,omitempty"`
 	Es []vfC12Kind `json:"es,omitempty"`
 	N  int         `json:"n,omitempty"`
+	// pstruct: a struct with len(Ix) fields, field j receiving UDT field Ix[j] (1-based), matched by cql tag
+	// or (Byname) by field name
+	Ix     []int `json:"ix,omitempty"`
+	Byname bool  `json:"byname,omitempty"`
 }
 
 type vfC12KV struct {
@@ -118,6 +122,7 @@ var vfC12LeafTypes = map[string]reflect.Type{
 	"bigint": reflect.TypeOf(big.Int{}), "string": reflect.TypeOf(""), "bytes": reflect.TypeOf([]byte(nil)),
 	"bool": reflect.TypeOf(false), "float32": reflect.TypeOf(float32(0)), "float64": reflect.TypeOf(float64(0)),
 	"dec": reflect.TypeOf(inf.Dec{}), "gdur": reflect.TypeOf(time.Duration(0)), "time": reflect.TypeOf(time.Time{}),
+	"time_p9": reflect.TypeOf(time.Time{}), "time_m5": reflect.TypeOf(time.Time{}), // the same instant carried in a non-UTC Location
 	"uuid": reflect.TypeOf(UUID{}), "arr16": reflect.TypeOf([16]byte{}), "ip": reflect.TypeOf(net.IP(nil)),
 	"cdur": reflect.TypeOf(Duration{}), "nil": reflect.TypeOf((*interface{})(nil)).Elem(),
 }
@@ -180,7 +185,10 @@ func vfC12Info(t *vfC12Type, proto byte) (TypeInfo, error) {
 	return NewNativeType(proto, nt, ""), nil
 }
 
-func vfC12FieldName(i int) string { return "f" + strconv.Itoa(i+1) }
+// UDT field names are exported identifiers so that a struct can also match them by field name
+func vfC12FieldName(i int) string { return "F" + strconv.Itoa(i+1) }
+
+var vfC12Zones = map[string]*time.Location{"time_p9": time.FixedZone("+09:00", 9*3600), "time_m5": time.FixedZone("-05:00", -5*3600)}
 
 func vfC12GoType(k *vfC12Kind) (reflect.Type, error) {
 	switch k.G {
@@ -231,7 +239,25 @@ func vfC12GoType(k *vfC12Kind) (reflect.Type, error) {
 			if err != nil {
 				return nil, err
 			}
-			fs[i] = reflect.StructField{Name: "F" + strconv.Itoa(i+1), Type: e, Tag: reflect.StructTag(`cql:"` + vfC12FieldName(i) + `"`)}
+			// Go field G<i> carries UDT field F<i> through its cql tag (for tuples the position counts)
+			fs[i] = reflect.StructField{Name: "G" + strconv.Itoa(i+1), Type: e, Tag: reflect.StructTag(`cql:"` + vfC12FieldName(i) + `"`)}
+		}
+		return reflect.StructOf(fs), nil
+	case "pstruct":
+		if len(k.Ix) != len(k.Es) {
+			return nil, fmt.Errorf("harness: pstruct arity mismatch")
+		}
+		fs := make([]reflect.StructField, len(k.Es))
+		for j := range k.Es {
+			e, err := vfC12GoType(&k.Es[j])
+			if err != nil {
+				return nil, err
+			}
+			if k.Byname {
+				fs[j] = reflect.StructField{Name: vfC12FieldName(k.Ix[j] - 1), Type: e}
+			} else {
+				fs[j] = reflect.StructField{Name: "G" + strconv.Itoa(k.Ix[j]), Type: e, Tag: reflect.StructTag(`cql:"` + vfC12FieldName(k.Ix[j]-1) + `"`)}
+			}
 		}
 		return reflect.StructOf(fs), nil
 	case "ifaces":
@@ -483,6 +509,18 @@ func vfC12Build(k *vfC12Kind, gv *vfC12Val, t *vfC12Type) (reflect.Value, error)
 		}
 		v.Set(reflect.ValueOf(time.UnixMilli(x.Int64()).UTC()))
 		return v, nil
+	case "time_p9", "time_m5":
+		if gv.K == "empty" {
+			return reflect.ValueOf(time.Time{}.In(vfC12Zones[k.G])), nil // still the zero time.Time
+		}
+		x, err := vfC12Big(gv)
+		if err != nil {
+			return reflect.Value{}, err
+		}
+		if !x.IsInt64() {
+			return reflect.Value{}, fmt.Errorf("harness: instant out of range")
+		}
+		return reflect.ValueOf(time.UnixMilli(x.Int64()).In(vfC12Zones[k.G])), nil
 	}
 	switch typ.Kind() {
 	case reflect.Int, reflect.Int8, reflect.Int16, reflect.Int32, reflect.Int64:
@@ -742,7 +780,11 @@ func vfC12Dump(v reflect.Value, t *vfC12Type) vfC12Obj {
 	case reflect.Struct:
 		es := make([]interface{}, v.NumField())
 		for i := range es {
-			es[i] = vfC12Dump(v.Field(i), vfC12ElemType(t, i))
+			idx := i
+			if n, err := strconv.Atoi(v.Type().Field(i).Name[1:]); err == nil { // G<n> / F<n>: the n-th field of the UDT / tuple
+				idx = n - 1
+			}
+			es[i] = vfC12Dump(v.Field(i), vfC12ElemType(t, idx))
 		}
 		return vfC12Obj{"k": "tuple", "es": es}
 	case reflect.Map:
@@ -1479,7 +1521,7 @@ var vfC12ScalarKinds = map[string][]string{
 	"counter": vfC12AllIntKinds, "varint": vfC12AllIntKinds,
 	"text": {"string", "bytes"}, "ascii": {"string", "bytes"}, "varchar": {"string", "bytes"}, "blob": {"string", "bytes"},
 	"boolean": {"bool"}, "float": {"float32"}, "double": {"float64"}, "decimal": {"dec"},
-	"time": {"int64", "nint64", "gdur"}, "timestamp": {"int64", "nint64", "time", "time"}, "date": {"int64", "time", "time", "string"},
+	"time": {"int64", "nint64", "gdur"}, "timestamp": {"int64", "nint64", "time", "time", "time_p9", "time_m5"}, "date": {"int64", "time", "time", "string", "time_p9", "time_m5"},
 	"duration": {"int64", "nint64", "gdur", "cdur", "cdur", "string"}, "uuid": {"uuid", "arr16", "bytes", "string"},
 	"timeuuid": {"uuid", "arr16", "bytes", "string"}, "inet": {"ip", "string"},
 }
@@ -1694,6 +1736,20 @@ func (g *vfC12Gen) targets(t *vfC12Type, k *vfC12Kind) []vfC12Kind {
 		if k.G == "slice" || k.G == "map" || k.G == "struct" || k.G == "ifaces" {
 			out = append(out, *k)
 		}
+		if t.T == "udt" && k.G == "struct" && len(k.Es) >= 2 { // a struct that lacks one non-trailing field of the UDT
+			drop := g.r.Intn(len(k.Es) - 1)
+			ps := vfC12Kind{G: "pstruct", Byname: g.r.Intn(2) == 0}
+			for i := range k.Es {
+				if i != drop {
+					ps.Es = append(ps.Es, k.Es[i])
+					ps.Ix = append(ps.Ix, i+1)
+				}
+			}
+			if g.r.Intn(2) == 0 && len(ps.Es) == 2 {
+				ps.Es[0], ps.Es[1], ps.Ix[0], ps.Ix[1] = ps.Es[1], ps.Es[0], ps.Ix[1], ps.Ix[0]
+			}
+			out = append(out, ps)
+		}
 		return out
 	}
 	kk := k
@@ -1789,7 +1845,11 @@ func vfC12KindObj(k *vfC12Kind) vfC12Obj {
 		o["kk"] = vfC12KindObj(k.Kk)
 		o["vk"] = vfC12KindObj(k.Vk)
 	}
-	if k.G == "struct" || k.G == "ifaces" || k.G == "udtmap" {
+	if k.G == "pstruct" {
+		o["ix"] = append([]int{}, k.Ix...)
+		o["byname"] = k.Byname
+	}
+	if k.G == "struct" || k.G == "ifaces" || k.G == "udtmap" || k.G == "pstruct" {
 		es := make([]interface{}, len(k.Es))
 		for i := range k.Es {
 			es[i] = vfC12KindObj(&k.Es[i])
